@@ -40,7 +40,7 @@ impl DeserializeEmbeddedGroup for Committee {
             cbor_event::Len::Len(n) => table.len() < n as usize,
             cbor_event::Len::Indefinite => true,
         } {
-            if is_break_tag(raw, "Committee")? {
+            if is_break_tag(raw, &map_len, "Committee")? {
                 break;
             }
             let key = Credential::deserialize(raw)?;
